@@ -10,9 +10,9 @@ from vf.zoo import capa, mvcapa
 
 SHARDS = {"quick": 8, "thorough": 16}
 WATCHDOG = {"quick": 1800, "thorough": 10800}
-CASES = {"quick": 110, "thorough": 1500}
+CASES = {"quick": 220, "thorough": 2500}
 FLOORS = {
-    "quick": {"distinct_nontrivial": 150, "cases[CAPA]": 150, "cases[MVCAPA]": 150,
+    "quick": {"distinct_nontrivial": 300, "cases[CAPA]": 300, "cases[MVCAPA]": 300,
               "prefix_scores_compared": 10000, "cases_with_point_anomaly": 40,
               "cases_with_pruned_start": 100, "ignore_twins": 100},
     "thorough": {"distinct_nontrivial": 3000, "prefix_scores_compared": 300000},
@@ -31,7 +31,8 @@ RULE = (
     "case = CAPA or MVCAPA configuration from the zoo (savings: L2Saving, Saving(L2Cost(0)), "
     "Saving(GaussianVarCost(0,1)), integer sub-additive ClosureTableSaving; penalties: CAPA's own / "
     "dense / sparse / intermediate / combined / 7 user callables; scales 0..5; 2<=m<=M, M from m up) "
-    "x seeded data with spikes, adjacent and boundary anomalies, n from m to 45 (120 thorough), p<=4. "
+    "x seeded data with spikes, adjacent, boundary and nested (short strong inside long weak) anomalies, "
+    "n from m to 45 (120 thorough), p<=4 (CAPA) / <=6 (MVCAPA). "
     "Oracle: unpruned reference DP over savings obtained from FRESH clones through public evaluate() "
     "and the penalties exposed by the detector (CAPA) or its public penalty functions (MVCAPA): "
     "transform_scores[t] == F(t+1) for every prefix, scores non-negative and non-decreasing, the "
@@ -46,19 +47,22 @@ ASSUMPTIONS = ["values compared within 1e-9*(1+|F|); integer tables are exact",
 
 def make_recipe(rng, tier, which=None):
     which = which or ("CAPA" if rng.random() < 0.5 else "MVCAPA")
-    p = int(rng.integers(1, 5))
+    p = int(rng.integers(1, 5)) if which == "CAPA" else int(rng.integers(1, 7))
     spec, m = (capa if which == "CAPA" else mvcapa)(rng, p, dense_events=bool(rng.random() < 0.7))
     nmax = 45 if tier == "quick" else (120 if rng.random() < 0.2 else 60)
     n = int(rng.integers(m, nmax + 1))
     if rng.random() < 0.08:
         n = m + int(rng.integers(0, 2))
     kind = ["spikes", "collective", "noise", "small_alphabet", "mean_changes", "weak_changes",
-            "dyadic", "heavy", "collective", "spikes"][int(rng.integers(10))]
+            "dyadic", "heavy", "collective", "spikes", "nested", "nested", "nested"][int(rng.integers(13))]
     X, _ = gen_data(rng, n, p, kind)
     if spec["kw"]["collective_saving"] and spec["kw"]["collective_saving"]["cls"] == "GaussianVarCost" \
             and kind in ("small_alphabet", "dyadic"):
         X = X + 1e-2 * rng.standard_normal(X.shape)
-    return {"det": spec, "X": X, "data_kind": kind}
+    int_dtype = bool(rng.random() < 0.12)
+    if int_dtype:
+        X = np.round(2 * X)
+    return {"det": spec, "X": X, "data_kind": kind, "int_dtype": int_dtype}
 
 
 def penalties(det, name, n, p):
@@ -103,12 +107,15 @@ def premise_ok(coll, n, m, M):
 
 
 def exec_case(ctx, r):
-    X = np.asarray(r["X"], dtype=float)
+    Xf = np.asarray(r["X"], dtype=float)
+    X = Xf.astype(np.int64) if r.get("int_dtype") else Xf  # same numbers, integer dtype
     n, p = X.shape
     spec = r["det"]
     name = spec["cls"]
     m, M = spec["kw"]["min_segment_length"], spec["kw"]["max_segment_length"]
     ctx.case()
+    if r.get("int_dtype"):
+        ctx.stat("cases[int64 data]")
     ctx.stat(f"cases[{name}]")
     label = f"{short(spec)} X[{n}x{p}] data={r['data_kind']}"
     sub = f"optimality-{name}"
@@ -125,7 +132,7 @@ def exec_case(ctx, r):
     trace = I.stop_trace()
     try:
         pen_c, pen_p = penalties(det, name, n, p)
-        coll, point = saving_tables(spec, X, m, M)
+        coll, point = saving_tables(spec, Xf, m, M)
     except Exception as ex:
         ctx.stat(f"oracle_unavailable[{type(ex).__name__}]")
         return
